@@ -28,8 +28,125 @@ def free_standing(ck, tier, cases):
         if rls:
             solvecheck.run(ck, "C03", 0, RL_PROFILE, extra=rls)
     else:
+        sub_list_histories(ck, tier)
         freecheck.run(ck, 3000 if tier == "thorough" else 160)
         solvecheck.run(ck, "C03/rl", 3000 if tier == "thorough" else 150, RL_PROFILE)
+
+
+def sub_list_histories(ck, tier):
+    """A sub-object (declared with attr or rand_attr) whose constraints range over a non-random list it holds, called through
+    its parent and on its own while the user edits the list between calls (element assignment, append, clear and refill).
+    Reference semantics, computed here from the content at the time of each call: x < 8, w < 8 and both differ from every element,
+    no value left = SolveFailure; a call in which the sub-object is not random leaves x and the list alone."""
+    import random
+    import solvelib as S
+    S.install()
+    import vsc
+    from vsc.model.solve_failure import SolveFailure
+
+    def classes(sub_rand):
+        @vsc.randobj
+        class Child:
+            def __init__(self):
+                self.x = vsc.rand_uint8_t()
+                self.w = vsc.rand_uint8_t()
+                self.excl = vsc.list_t(vsc.uint8_t())
+                for v in (0, 1, 2):
+                    self.excl.append(v)
+
+            @vsc.constraint
+            def x_c(self):
+                self.x < 8
+                self.w < 8
+                with vsc.foreach(self.excl, idx=True) as i:
+                    self.x != self.excl[i]
+                with vsc.foreach(self.excl) as e:
+                    self.w != e
+
+        @vsc.randobj
+        class Parent:
+            def __init__(self):
+                self.y = vsc.rand_uint8_t()
+                self.child = (vsc.rand_attr if sub_rand else vsc.attr)(Child())
+        return Child, Parent
+    rng = random.Random("C03/sub-lists/%d" % ck.seed)
+    for h in range(150 if tier == "thorough" else 20):
+        sub_rand = rng.random() < 0.4
+        Child, Parent = classes(sub_rand)
+        p = Parent()
+        ops = []
+        for step in range(rng.randint(5, 12)):
+            x = rng.random()
+            excl = [int(v) for v in p.child.excl]
+            if x < 0.4:
+                how = rng.choice(["set", "append", "refill", "cover"])
+                if how == "set" and excl:
+                    k, v = rng.randrange(len(excl)), rng.randrange(9)
+                    p.child.excl[k] = v
+                    ops.append(["excl[%d]=" % k, v])
+                elif how == "append":
+                    v = rng.randrange(9)
+                    p.child.excl.append(v)
+                    ops.append(["append", v])
+                elif how == "cover":
+                    miss = rng.randrange(9)
+                    vs = [v for v in range(8) if v != miss]
+                    p.child.excl.clear()
+                    for v in vs:
+                        p.child.excl.append(v)
+                    ops.append(["refill", vs])
+                else:
+                    vs = [rng.randrange(9) for _ in range(rng.randint(0, 6))]
+                    p.child.excl.clear()
+                    for v in vs:
+                        p.child.excl.append(v)
+                    ops.append(["refill", vs])
+                continue
+            on_child = x < 0.7
+            sd = rng.randrange(1 << 30)
+            ops.append(["child.randomize" if on_child else "parent.randomize", sd])
+            tgt = p.child if on_child else p
+            tgt.set_randstate(vsc.RandState.mkFromSeed(sd))
+            before = (int(p.child.x), int(p.child.w), excl)
+            child_random = on_child or sub_rand
+            left = [v for v in range(8) if v not in excl]
+            ck.count("eval_sub_list_calls")
+            case = {"child_declared": "rand_attr" if sub_rand else "attr", "ops": list(ops)}
+            try:
+                with common.quiet():
+                    tgt.randomize()
+                raised = None
+            except SolveFailure:
+                raised = "SolveFailure"
+            except Exception as e:
+                ck.oracle_fail("sub-list-call-raised:%s" % type(e).__name__, case, str(e)[:200], "SolveFailure or a normal return")
+                break
+            after = (int(p.child.x), int(p.child.w), [int(v) for v in p.child.excl])
+            if after[2] != excl:
+                ck.oracle_fail("nonrandom-list-changed-by-call", case, {"before": excl, "after": after[2]}, "the list keeps its content")
+                break
+            if not child_random:
+                if raised or after != before:
+                    ck.oracle_fail("nonrandom-subobject-changed-by-call", case, {"before": before, "after": after, "raised": raised},
+                                   "every field of a non-random sub-object keeps its value")
+                    break
+                continue
+            if raised:
+                if left and len(set(excl)) < 256:
+                    ck.oracle_fail("spurious-SolveFailure-over-current-list", case, {"excl": excl}, {"values_left_for_x": left})
+                    break
+                if after != before:
+                    ck.oracle_fail("field-changed-by-failed-call", case, {"before": before, "after": after}, "values kept")
+                    break
+                continue
+            if not left:
+                ck.oracle_fail("unsatisfiable-over-current-list-returned-normally", case, {"x": after[0], "excl": excl}, "SolveFailure")
+                break
+            if after[0] not in left or after[1] not in left:
+                ck.oracle_fail("solution-space-does-not-follow-current-list-content", case,
+                               {"x": after[0], "w": after[1], "excl": excl}, {"x_and_w_in": left})
+                break
+    ck.sample({"kind": "sub-object list histories"})
 
 
 if __name__ == "__main__":
